@@ -11,6 +11,7 @@ package bgp
 
 import (
 	"fmt"
+	"os"
 	"runtime/debug"
 	"sort"
 	"strings"
@@ -53,6 +54,51 @@ func c06ClassOf(h ErrorHandling) c06lib.Class {
 		return c06lib.TAW
 	}
 	return c06lib.Reset
+}
+
+// c06ReplicaSnippets are the statements of pkg/server/fsm.go (handlingError, recvMessageWithError,
+// recvMessageloop) that c06HandlingError and c06Pipeline mirror, whitespace-normalised.
+var c06ReplicaSnippets = []string{
+	"if m.Header.Type == bgp.BGP_MSG_UPDATE && useRevisedError { factor := e.(*bgp.MessageError) handling = factor.ErrorHandling",
+	"case bgp.ERROR_HANDLING_AFISAFI_DISABLE: handling = bgp.ERROR_HANDLING_SESSION_RESET } } else { handling = bgp.ERROR_HANDLING_SESSION_RESET } return handling",
+	"if err != nil { if m == nil { handling = bgp.ERROR_HANDLING_SESSION_RESET } else { handling = h.handlingError(m, err, useRevisedError) }",
+	"if handling != bgp.ERROR_HANDLING_SESSION_RESET { ok, ve := bgp.ValidateUpdateMsg(body, rfMap, h.fsm.isEBGP, h.fsm.isConfed, h.allowLoopback) if !ok { if hv := h.handlingError(m, ve, useRevisedError); hv > handling { validationErr = ve handling = hv",
+}
+
+// c06ReplicaDrift reports which of the mirrored statements are no longer in the source of the receive
+// path (the test runs in pkg/packet/bgp of the tree under test).
+func c06ReplicaDrift() []string {
+	src, err := os.ReadFile("../../server/fsm.go")
+	if err != nil {
+		return []string{"cannot read ../../server/fsm.go: " + err.Error()}
+	}
+	// drop comments, normalise whitespace
+	var sb strings.Builder
+	for _, l := range strings.Split(string(src), "\n") {
+		if i := strings.Index(l, "//"); i >= 0 {
+			l = l[:i]
+		}
+		sb.WriteString(l)
+		sb.WriteString(" ")
+	}
+	norm := strings.Join(strings.Fields(sb.String()), " ")
+	var missing []string
+	for _, sn := range c06ReplicaSnippets {
+		// logging statements between the mirrored ones are skipped by matching piecewise in order
+		pos, ok := 0, true
+		for _, piece := range strings.Split(sn, " handling = ") {
+			i := strings.Index(norm[pos:], strings.TrimSpace(piece))
+			if i < 0 {
+				ok = false
+				break
+			}
+			pos += i
+		}
+		if !ok {
+			missing = append(missing, sn)
+		}
+	}
+	return missing
 }
 
 // c06HandlingError is fsmHandler.handlingError (pkg/server/fsm.go) for an UPDATE.
@@ -126,7 +172,11 @@ func c06Pipeline(raw []byte, pt c06lib.PeerType, revised, noV4 bool) (g c06Got) 
 		g.Stage, g.ErrText = "decode", me.Message
 		g.Code, g.Sub = me.TypeCode, me.SubTypeCode
 	}
-	if handling == ERROR_HANDLING_NONE {
+	// mirrors recvMessageloop, case BGP_MSG_UPDATE (pkg/server/fsm.go, "if handling != bgp.ERROR_HANDLING_SESSION_RESET {"
+	// ... "if hv := h.handlingError(m, ve, useRevisedError); hv > handling {"): the attribute checks run unless the
+	// decoder already asked for a reset, and the stronger of the two reactions is kept (c06ReplicaDrift checks
+	// that those statements are still in the source)
+	if handling != ERROR_HANDLING_SESSION_RESET {
 		ok, ve := ValidateUpdateMsg(m.Body.(*BGPUpdate), rf, pt != c06lib.IBGP, pt == c06lib.Confed, false)
 		if !ok {
 			me, isme := ve.(*MessageError)
@@ -134,9 +184,11 @@ func c06Pipeline(raw []byte, pt c06lib.PeerType, revised, noV4 bool) (g c06Got) 
 				g.NotMsgErr, g.ErrText = true, ve.Error()
 				return
 			}
-			handling = c06HandlingError(me, revised)
-			g.Stage, g.ErrText = "validate", me.Message
-			g.Code, g.Sub = me.TypeCode, me.SubTypeCode
+			if hv := c06HandlingError(me, revised); hv > handling {
+				handling = hv
+				g.Stage, g.ErrText = "validate", me.Message
+				g.Code, g.Sub = me.TypeCode, me.SubTypeCode
+			}
 		}
 	} else {
 		g.Skipped = true
@@ -182,6 +234,10 @@ func c06ClassKey(cs c06Case, g c06Got, v c06lib.Verdict, components bool) string
 	}
 	key := fmt.Sprintf("C06:class:%s:%s:want=%s:got=%s:%s", v.Attr, v.Rule, v.Primary, g.Class, mode)
 	switch {
+	case g.Stage == "validate" && g.DecodeClass != "none" && g.Class > v.Primary:
+		// the decoder had already rejected an attribute, and the validation stage, run over the half-decoded
+		// attribute objects, asked for more than any error of the message calls for
+		key = fmt.Sprintf("C06:validate-after-decode-error:%s:want=%s:got=%s", c06Sanitize(g.ErrText), v.Primary, g.Class)
 	case v.Primary == c06lib.None:
 		key = fmt.Sprintf("C06:penalised:%s:3/%d:got=%s:%s", g.Stage, g.Sub, g.Class, mode)
 		if len(cs.Faults) == 1 {
@@ -291,7 +347,7 @@ func c06Check(r *vr.Report, cs c06Case, raw []byte) {
 	what := fmt.Sprintf("base %s, peer %s, %s, faults %v, message %s", cs.Base, pt, mode, cs.Faults, cs.Hex)
 	g := c06Pipeline(raw, pt, cs.Revised, cs.NoV4)
 	if g.Panic != "" {
-		r.Violationf("C06:panic:"+g.Panic[strings.LastIndex(g.Panic, "@ ")+2:], cs, "decode/validate panicked (%s): %s", g.Panic, what)
+		c06Viol(r, "C06:panic:"+g.Panic[strings.LastIndex(g.Panic, "@ ")+2:], cs, "decode/validate panicked (%s): %s", g.Panic, what)
 		return
 	}
 	if g.NotMsgErr {
@@ -329,7 +385,11 @@ func c06Check(r *vr.Report, cs c06Case, raw []byte) {
 	}
 	if g.Class == c06lib.Reset && g.Code != 0 {
 		if g.Code != 3 || !v.Subs[g.Sub] {
-			c06Viol(r, fmt.Sprintf("C06:notif:got=%d/%d:%s", g.Code, g.Sub, c06Sanitize(g.ErrText)), cs,
+			key := fmt.Sprintf("C06:notif:got=%d/%d:%s", g.Code, g.Sub, c06Sanitize(g.ErrText))
+			if g.Stage == "validate" && g.DecodeClass != "none" {
+				key = fmt.Sprintf("C06:validate-after-decode-error:%s:notif=%d/%d", c06Sanitize(g.ErrText), g.Code, g.Sub)
+			}
+			c06Viol(r, key, cs,
 				"session reset is right but the NOTIFICATION is %d/%d (error %q); acceptable: 3/%s (errors seen by the reference: %s): %s",
 				g.Code, g.Sub, g.ErrText, v.SubsString(), errs, what)
 		}
@@ -499,6 +559,9 @@ func TestVerif_C06_Classify(t *testing.T) {
 		}
 	}
 	r.Extra["single_faults_per_base"] = sizes
+	if drift := c06ReplicaDrift(); len(drift) > 0 {
+		r.Cap(fmt.Sprintf("the pipeline replica of this part no longer mirrors pkg/server/fsm.go (statements not found: %q); its verdicts hold for the mirrored logic only, part effect runs the real code", drift))
+	}
 	W := vr.Workers()
 	// phase 0: the well-formed bases and every single fault (so that the case kept for a violation key is a
 	// single fault whenever one suffices); phase 1: the pairs
